@@ -66,6 +66,7 @@ CLASSES = [
     'ok_marker',
     's404_marker',
     'c4xx_marker',
+    'near_marker5xx',
     'exc',
 ]
 ATTEMPTS = 6
@@ -149,6 +150,10 @@ def gen_response(rng, cls, tok):
         return {'cls': cls, 'status': 404, 'ctype': 'text/plain', 'body': f'no such path src/lib_shell/prevalidator.ml {tok}'}
     if cls == 'c4xx_marker':
         return {'cls': cls, 'status': rng.choice([400, 403, 409]), 'ctype': 'text/plain', 'body': f'bad request: Assert_failure src/lib_shell/prevalidator.ml:1918:6 {tok}'}
+    if cls == 'near_marker5xx':
+        # texts that resemble the prevalidator marker without containing it
+        near = rng.choice(['src/lib_shell/prevalidator/ml_store.ml', 'prevalidator_mlock', 'prevalidator ml-node-2', 'prevalidatorXml', 'prevalidator,ml'])
+        return {'cls': cls, 'status': st5, 'ctype': rng.choice(['text/plain', None]), 'body': f'Internal error in {near}: {tok}'}
     if cls == 'exc':
         return {'cls': cls, 'exc': rng.choice(['ConnectionError', 'ReadTimeout'])}
     raise ValueError(cls)
@@ -185,7 +190,7 @@ def gen(seed, tier):
                 # a node (or a proxy in front of it) may attach a Retry-After hint: the statement's delay bounds still hold
                 resp['headers'] = {'retry-after': rng.choice(['0', '1', '1', '3', '120', 'Wed, 21 Oct 2026 07:28:00 GMT'])}
             if rng.random() < 0.2:
-                resp['latency_ms'] = rng.choice([5, 400, 4000, 25000])  # a slow answer: virtual time passes while waiting for it
+                resp['latency_ms'] = rng.choice([5, 120, 400, 900, 4000, 25000])  # a slow answer: virtual time passes while waiting for it
             if resp.get('body') is not None and resp.get('status', 0) >= 400 and resp.get('ctype') != 'application/json' and rng.random() < 0.25:
                 # a long dump after the message (a backtrace, a gateway page)
                 resp['body'] = resp['body'] + ' ' + ('Raised at file "src/lib_shell/foo.ml", line 12, characters 3-40\n' * rng.choice([10, 80]))
